@@ -99,11 +99,11 @@ func c17Check(tree any, tag string) {
 
 // HarnessC17_required: single document, depth <= 2 (quick) / 3 (thorough).
 func HarnessC17_required() {
-	d := 2
+	d, l := 2, 2
 	if vTier() > 0 {
-		d = 3
+		d, l = 3, 1
 	}
-	root := ndMap(d, keysAB, 2, reqLeaf)
+	root := ndMap(d, keysAB, l, reqLeaf)
 	c17Check(root, "")
 }
 
